@@ -1187,6 +1187,28 @@ func concScenarios(tier string) []concScenario {
 		out = append(out, concScenario{Name: fmt.Sprintf("%s reads=%v hdr=%d log_in_thread=%v writer_point=%v bound=%d", fam, rs, hdr, inThread, wp, bound),
 			Msgs: ms, LogInThread: inThread, WritePoint: wp, Bound: bound, Weight: weight})
 	}
+	// F4: two threads read large bodies through the wrapper with the read sizes real consumers use (io.Copy's
+	// 32 KiB buffer, a 64 KiB buffer): one data frame carries tens of kilobytes and must still reach the
+	// writer as one whole frame while the other thread's frames are queued on the same channel.
+	big := func(size, buf int, bound int, weight int64) {
+		var ms []msgSpec
+		for i := 0; i < 2; i++ {
+			ms = append(ms, msgSpec{Kind: i, Hdr: 0, ID: "exch-big", Body: bodySpec{Size: size, ErrAt: -1}, Cons: consSpec{Bufs: []int{buf}, CloseAfter: -1}})
+		}
+		out = append(out, concScenario{Name: fmt.Sprintf("F4 body=%d read_buffer=%d log_in_thread=false writer_point=false bound=%d", size, buf, bound),
+			Msgs: ms, LogInThread: false, WritePoint: false, Bound: bound, Weight: weight})
+	}
+	if os.Getenv("C19_CALIBRATE") == "" {
+		if tier != "thorough" {
+			big(40000, 65536, 4, 3000)
+			big(70000, 32768, 3, 6000)
+		} else {
+			big(32750, 65536, -1, 30000)
+			big(40000, 65536, -1, 30000)
+			big(70000, 32768, 5, 200000)
+			big(140000, 65536, 5, 200000)
+		}
+	}
 	if os.Getenv("C19_CALIBRATE") != "" {
 		for _, rs := range [][]int{{2, 2}, {3, 3}, {2, 2, 2}} {
 			for _, b := range []int{2, 3, 4} {
